@@ -357,7 +357,8 @@ theorem rt_serverHello_tlcp (c : Codes) (hc : HelloCodes c) (m : ServerHello)
     ∃ b, encServerHello c m = some b ∧ unmarshalServerHello c b = .ok m := by
   obtain ⟨body, h1, h2, h3⟩ := rt_serverHelloBody c hc m (shwf_of hw)
   refine ⟨u8 c.tServerHello :: (be24 body.length ++ body), by simp only [encServerHello, h1, vec24_of_lt h3], ?_⟩
-  rw [unmarshalServerHello, guardT_pass _ _ h3, decServerHello, skip4, h2]; rfl
+  rw [unmarshalServerHello, guardT_pass _ _ h3, decServerHello, skip4]
+  simp only [h2]; rfl
 
 theorem total_serverHello_tlcp (c : Codes) (b : Bytes) : unmarshalServerHello c b ≠ .panic := by
   apply guardT_ne_panic
@@ -381,6 +382,684 @@ theorem rt_serverHello_dtlcp (c : Codes) (hc : HelloCodes c) (r : Lemmas.CodecDt
 theorem total_serverHello_dtlcp (c : Codes) (r : Lemmas.CodecDtlcp.Ready c c.tServerHello) (b : Bytes) :
     Model.CodecDtlcp.decServerHello c b ≠ .panic := by
   unfold Model.CodecDtlcp.decServerHello
+  apply Lemmas.CodecDtlcp.guard_ne_panic c r.hl
+  split
+  · simp
+  · split
+    · simp
+    · split <;> simp
+
+/-! ### ClientHello -/
+
+/-- `code`, then the extension data `vec16(inner)` wrapped once more -/
+def wrap2 (code : Nat) (inner : Bytes) : Bytes :=
+  be16 code ++ (be16 (be16 inner.length ++ inner).length ++ (be16 inner.length ++ inner))
+
+theorem wrap2_length (code : Nat) (inner : Bytes) : (wrap2 code inner).length = 6 + inner.length := by
+  simp [wrap2, be16]; omega
+
+theorem wrap2_ne (code : Nat) (inner : Bytes) : wrap2 code inner ≠ [] := by simp [wrap2, be16]
+
+theorem ext_wrap2 (code : Nat) {inner : Bytes} (h : inner.length + 2 < 65536) :
+    ext code (vec16x2 (some inner)) = some (wrap2 code inner) := by
+  have h1 : inner.length < 65536 := by omega
+  have h2 : (be16 inner.length ++ inner).length < 65536 := by rw [List.length_append, be16_length]; omega
+  simp only [vec16x2, vec16_of_lt h1, ext, vec16_of_lt h2, wrap2]
+
+theorem clientExtStep_wrap2 (c : Codes) (st : ClientHello) {code : Nat} (hcode : code < 65536) {inner : Bytes}
+    (h : inner.length + 2 < 65536) (r : Bytes) {m' : ClientHello}
+    (hcase : clientExtCase c st code (be16 inner.length ++ inner) = some (m', [], false)) :
+    clientExtStep c st (wrap2 code inner ++ r) = some (m', r) := by
+  have h2 : (be16 inner.length ++ inner).length < 65536 := by rw [List.length_append, be16_length]; omega
+  have hv := readVec16_append h2 r
+  simp only [List.append_assoc] at hv
+  simp only [clientExtStep, wrap2, List.append_assoc, readU16_be16 hcode, hv, hcase, isEmpty_nil, Bool.or_true, ↓reduceIte]
+
+theorem readVec16_inner {inner : Bytes} (h : inner.length + 2 < 65536) :
+    readVec16 (be16 inner.length ++ inner) = some (inner, []) := by
+  have := readVec16_append (c := inner) (by omega) ([] : Bytes)
+  simpa using this
+
+theorem isEmpty_false_of_pos {s : Bytes} (h : s.length > 0) : isEmpty s = false := by
+  cases s with
+  | nil => simp at h
+  | cons _ _ => rfl
+
+/-- SNI -/
+def sniInner (name : Bytes) : Bytes := 0 :: (be16 name.length ++ name)
+
+def sniUpd (name : Bytes) (st : ClientHello) : ClientHello :=
+  if st.serverName.length ≠ 0 then st else { st with serverName := name }
+
+theorem case_sni (c : Codes) (hc : HelloCodes c) (st : ClientHello) (name : Bytes) (h0 : name.length > 0)
+    (h1 : name.length + 5 < 65536) (hdot : Spec.Codec.noTrailingDot name = true) :
+    clientExtCase c st c.extServerName (be16 (sniInner name).length ++ sniInner name) = some (sniUpd name st, [], false) := by
+  have hl : (sniInner name).length + 2 < 65536 := by simp [sniInner, be16]; omega
+  have hne : isEmpty (sniInner name) = false := rfl
+  have hv := readVec16_append (c := name) (by omega) ([] : Bytes)
+  simp only [List.append_nil] at hv
+  have hne2 : isEmpty name = false := isEmpty_false_of_pos h0
+  have hld : lastDot name = false := by
+    unfold Spec.Codec.noTrailingDot at hdot
+    unfold lastDot
+    cases hg : name.getLast? with
+    | none => rfl
+    | some b => rw [hg] at hdot; simp only at hdot ⊢; simpa using hdot
+  have hstep : sniStep st (sniInner name) = some (sniUpd name st, []) := by
+    simp only [sniStep, sniInner, readU8, hv, hne2, Bool.false_eq_true, ↓reduceIte, ne_eq, not_true_eq_false, hld, sniUpd]
+    split <;> rfl
+  have hf : foldMany sniStep (sniInner name).length st (sniInner name) = some (sniUpd name st) := by
+    have := foldMany_step sniStep ((sniInner name).length - 1) st (sniUpd name st) (sniInner name) [] (by simp [sniInner])
+      (by simpa using hstep)
+    have hlen : (sniInner name).length = ((sniInner name).length - 1) + 1 := by simp [sniInner]
+    rw [hlen]
+    simp only [List.append_nil] at this
+    rw [this, foldMany_nil]
+  simp only [clientExtCase, ↓reduceIte, readVec16_inner hl, hne, Bool.false_eq_true, hf]
+
+/-- trusted authorities -/
+def taEnc (t : TA) : Bytes := if t.ty == 2 then t.ty :: (be16 t.id.length ++ t.id) else t.ty :: t.id
+
+theorem encTA_eq (c : Codes) (hc : HelloCodes c) (t : TA) (hw : Spec.Codec.wfTA t = true) : encTA c t = some (taEnc t) := by
+  unfold Spec.Codec.wfTA at hw
+  unfold encTA taEnc
+  rw [hc.pre, hc.keyH, hc.certH, hc.x509]
+  by_cases h0 : t.ty = 0
+  · have hid : t.id = [] := by
+      simp only [h0, beq_self_eq_true, ↓reduceIte, beq_iff_eq] at hw
+      exact List.eq_nil_of_length_eq_zero hw
+    simp [h0, hid]
+  · have h0' : ¬ (t.ty.toNat = 0) := fun h => h0 (UInt8.toNat_inj.mp h)
+    by_cases h45 : t.ty = 4 ∨ t.ty = 5
+    · have : t.ty.toNat = 4 ∨ t.ty.toNat = 5 := by rcases h45 with h | h <;> simp [h]
+      have h2 : ¬ (t.ty == 2) = true := by rcases h45 with h | h <;> simp [h]
+      simp [h0', this, h2]
+    · have h45' : ¬ (t.ty.toNat = 4 ∨ t.ty.toNat = 5) := by
+        intro h; apply h45
+        rcases h with h | h
+        · left; exact UInt8.toNat_inj.mp h
+        · right; exact UInt8.toNat_inj.mp h
+      by_cases h2 : t.ty = 2
+      · have hl : t.id.length < 65536 := by
+          simp only [h2] at hw
+          simp at hw; exact hw.2
+        simp [h0', h45', h2, prefixed, vec16_of_lt hl]
+      · exfalso
+        have b0 : (t.ty == 0) = false := by simpa using h0
+        have b2 : (t.ty == 2) = false := by simpa using h2
+        have b45 : (t.ty == 4 || t.ty == 5) = false := by
+          simp only [Bool.or_eq_false_iff, beq_eq_false_iff_ne, ne_eq]
+          exact ⟨fun h => h45 (Or.inl h), fun h => h45 (Or.inr h)⟩
+        simp [b0, b2, b45] at hw
+
+theorem concatMapM_encTA (c : Codes) (hc : HelloCodes c) (tas : List TA) (hw : ∀ t ∈ tas, Spec.Codec.wfTA t = true) :
+    concatMapM (encTA c) tas = some (concatMap taEnc tas) := by
+  induction tas with
+  | nil => rfl
+  | cons t ts ih =>
+    simp only [concatMapM, encTA_eq c hc t (hw t List.mem_cons_self),
+      ih (fun x hx => hw x (List.mem_cons_of_mem _ hx)), concatMap]
+
+theorem taStep_item (c : Codes) (hc : HelloCodes c) (st : ClientHello) (t : TA) (hw : Spec.Codec.wfTA t = true) (r : Bytes) :
+    taStep c st (taEnc t ++ r) = some ({ st with tas := st.tas ++ [t] }, r) := by
+  unfold Spec.Codec.wfTA at hw
+  unfold taStep taEnc
+  rw [hc.pre, hc.keyH, hc.certH, hc.x509, hc.hash]
+  by_cases h0 : t.ty = 0
+  · have hid : t.id = [] := by
+      simp only [h0, beq_self_eq_true, ↓reduceIte, beq_iff_eq] at hw
+      exact List.eq_nil_of_length_eq_zero hw
+    cases t with
+    | mk ty id => simp only at h0 hid; subst h0; subst hid; simp [readU8]
+  · have h0' : ¬ (t.ty.toNat = 0) := fun h => h0 (UInt8.toNat_inj.mp h)
+    by_cases h45 : t.ty = 4 ∨ t.ty = 5
+    · have hn : t.ty.toNat = 4 ∨ t.ty.toNat = 5 := by rcases h45 with h | h <;> simp [h]
+      have h2 : ¬ (t.ty == 2) = true := by rcases h45 with h | h <;> simp [h]
+      have hlen : t.id.length = 32 := by
+        have b0 : (t.ty == 0) = false := by simpa using h0
+        have b45 : (t.ty == 4 || t.ty == 5) = true := by rcases h45 with h | h <;> simp [h]
+        simpa [b0, b45] using hw
+      have hrb := readBytes_append t.id r
+      rw [hlen] at hrb
+      cases t with
+      | mk ty id => simp only at *; simp [readU8, h0', hn, h2, hrb]
+    · have h45' : ¬ (t.ty.toNat = 4 ∨ t.ty.toNat = 5) := by
+        intro h; apply h45
+        rcases h with h | h
+        · left; exact UInt8.toNat_inj.mp h
+        · right; exact UInt8.toNat_inj.mp h
+      by_cases h2 : t.ty = 2
+      · have hl : t.id.length < 65536 := by
+          simp only [h2] at hw
+          simp at hw; exact hw.2
+        have hv := readVec16_append hl r
+        cases t with
+        | mk ty id =>
+          simp only at *
+          subst h2
+          simp only [List.append_assoc] at hv
+          simp [readU8, hv]
+      · exfalso
+        have b0 : (t.ty == 0) = false := by simpa using h0
+        have b2 : (t.ty == 2) = false := by simpa using h2
+        have b45 : (t.ty == 4 || t.ty == 5) = false := by
+          simp only [Bool.or_eq_false_iff, beq_eq_false_iff_ne, ne_eq]
+          exact ⟨fun h => h45 (Or.inl h), fun h => h45 (Or.inr h)⟩
+        simp [b0, b2, b45] at hw
+
+theorem taEnc_ne (t : TA) : taEnc t ≠ [] := by unfold taEnc; split <;> simp
+
+theorem foldl_tas (st : ClientHello) (tas : List TA) :
+    tas.foldl (fun s t => { s with tas := s.tas ++ [t] }) st = { st with tas := st.tas ++ tas } := by
+  induction tas generalizing st with
+  | nil => simp
+  | cons t ts ih => simp only [List.foldl_cons, ih]; simp
+
+theorem case_tas (c : Codes) (hc : HelloCodes c) (st : ClientHello) (tas : List TA) (h0 : tas.length > 0)
+    (hw : ∀ t ∈ tas, Spec.Codec.wfTA t = true) (hl : (concatMap taEnc tas).length + 2 < 65536) :
+    clientExtCase c st c.extTrustedCAKeys (be16 (concatMap taEnc tas).length ++ concatMap taEnc tas) =
+      some ({ st with tas := st.tas ++ tas }, [], false) := by
+  have hne1 : c.extTrustedCAKeys ≠ c.extServerName := by rw [hc.tca, hc.sni]; decide
+  have hge := concatMap_length_ge taEnc (fun _ => True) (fun x _ => taEnc_ne x) tas (fun _ _ => trivial)
+  have hne : isEmpty (concatMap taEnc tas) = false := isEmpty_false_of_pos (by omega)
+  have hf := foldMany_concat' (taStep c) taEnc (fun s t => { s with tas := s.tas ++ [t] })
+    (fun t => Spec.Codec.wfTA t = true) (fun x _ => taEnc_ne x) (fun s x r hx => taStep_item c hc s x hx r)
+    tas (concatMap taEnc tas).length st hw hge
+  rw [foldl_tas] at hf
+  simp only [clientExtCase, hne1, ↓reduceIte, readVec16_inner hl, hne, Bool.false_eq_true, hf]
+
+/-- status_request -/
+def statusExt (c : Codes) : Bytes := be16 c.extStatusRequest ++ (be16 5 ++ [1, 0, 0, 0, 0])
+
+theorem step_status (c : Codes) (hc : HelloCodes c) (st : ClientHello) (r : Bytes) :
+    clientExtStep c st (statusExt c ++ r) = some ({ st with ocsp := true }, r) := by
+  have hne1 : c.extStatusRequest ≠ c.extServerName := by rw [hc.status, hc.sni]; decide
+  have hne2 : c.extStatusRequest ≠ c.extTrustedCAKeys := by rw [hc.status, hc.tca]; decide
+  have hv : readVec16 (be16 5 ++ ([1, 0, 0, 0, 0] ++ r)) = some ([1, 0, 0, 0, 0], r) := by
+    have := readVec16_append (c := [1, 0, 0, 0, 0]) (by decide) r
+    simpa using this
+  have h0 : readVec16 [0, 0, 0, 0] = some ([], [0, 0]) := by decide
+  have h1 : readVec16 [0, 0] = some ([], []) := by decide
+  simp only [clientExtStep, statusExt, List.append_assoc, readU16_be16 (show c.extStatusRequest < 65536 by rw [hc.status]; decide),
+    hv, clientExtCase, hne1, hne2, ↓reduceIte, readU8, h0, h1, isEmpty_nil, Bool.or_true]
+  rfl
+
+/-- 16-bit item lists (curves, signature algorithms) -/
+theorem w16s_ne {l : List W16} (h : l.length > 0) : isEmpty (w16s l) = false := by
+  apply isEmpty_false_of_pos; rw [w16s_length]; omega
+
+theorem listMode_default {mode : Nat} (hm : mode ≤ 1) (l : List W16) : listMode mode [] l = l := by
+  unfold listMode
+  split
+  · rfl
+  · split
+    · rfl
+    · omega
+
+theorem case_curves (c : Codes) (hc : HelloCodes c) (st : ClientHello) (l : List W16) (h0 : l.length > 0)
+    (hl : (w16s l).length + 2 < 65536) :
+    clientExtCase c st c.extSupportedCurves (be16 (w16s l).length ++ w16s l) =
+      some ({ st with curves := listMode c.curvesMode st.curves l }, [], false) := by
+  have hne1 : c.extSupportedCurves ≠ c.extServerName := by rw [hc.curves, hc.sni]; decide
+  have hne2 : c.extSupportedCurves ≠ c.extTrustedCAKeys := by rw [hc.curves, hc.tca]; decide
+  have hne3 : c.extSupportedCurves ≠ c.extStatusRequest := by rw [hc.curves, hc.status]; decide
+  have hm := many_w16s l (w16s l).length (by rw [w16s_length]; omega)
+  simp only [clientExtCase, hne1, hne2, hne3, ↓reduceIte, readVec16_inner hl, w16s_ne h0, Bool.false_eq_true, hm]
+
+theorem case_sigs (c : Codes) (hc : HelloCodes c) (st : ClientHello) (l : List W16) (h0 : l.length > 0)
+    (hl : (w16s l).length + 2 < 65536) :
+    clientExtCase c st c.extSignatureAlgorithms (be16 (w16s l).length ++ w16s l) =
+      some ({ st with sigAlgs := listMode c.sigAlgsMode st.sigAlgs l }, [], false) := by
+  have hne1 : c.extSignatureAlgorithms ≠ c.extServerName := by rw [hc.sigs, hc.sni]; decide
+  have hne2 : c.extSignatureAlgorithms ≠ c.extTrustedCAKeys := by rw [hc.sigs, hc.tca]; decide
+  have hne3 : c.extSignatureAlgorithms ≠ c.extStatusRequest := by rw [hc.sigs, hc.status]; decide
+  have hne4 : c.extSignatureAlgorithms ≠ c.extSupportedCurves := by rw [hc.sigs, hc.curves]; decide
+  have hm := many_w16s l (w16s l).length (by rw [w16s_length]; omega)
+  simp only [clientExtCase, hne1, hne2, hne3, hne4, ↓reduceIte, readVec16_inner hl, w16s_ne h0, Bool.false_eq_true, hm]
+
+/-- ALPN -/
+def alpnEnc (p : Bytes) : Bytes := u8 p.length :: p
+
+def AlpnOk (p : Bytes) : Prop := 0 < p.length ∧ p.length < 256
+
+theorem concatMapM_alpn (l : List Bytes) (hw : ∀ p ∈ l, AlpnOk p) : concatMapM alpnItem l = some (concatMap alpnEnc l) := by
+  induction l with
+  | nil => rfl
+  | cons p ps ih =>
+    simp only [concatMapM, alpnItem, vec8_of_lt (hw p List.mem_cons_self).2,
+      ih (fun x hx => hw x (List.mem_cons_of_mem _ hx)), concatMap, alpnEnc]
+
+theorem alpnStep_item (st : ClientHello) (p : Bytes) (hw : AlpnOk p) (r : Bytes) :
+    alpnStep st (alpnEnc p ++ r) = some ({ st with alpn := st.alpn ++ [p] }, r) := by
+  have hv := readVec8_append hw.2 r
+  simp only [alpnStep, alpnEnc, List.cons_append] at hv ⊢
+  simp only [hv, isEmpty_false_of_pos hw.1, Bool.false_eq_true, ↓reduceIte]
+
+theorem foldl_alpn (st : ClientHello) (l : List Bytes) :
+    l.foldl (fun s p => { s with alpn := s.alpn ++ [p] }) st = { st with alpn := st.alpn ++ l } := by
+  induction l generalizing st with
+  | nil => simp
+  | cons t ts ih => simp only [List.foldl_cons, ih]; simp
+
+theorem case_alpn (c : Codes) (hc : HelloCodes c) (st : ClientHello) (l : List Bytes) (h0 : l.length > 0)
+    (hw : ∀ p ∈ l, AlpnOk p) (hl : (concatMap alpnEnc l).length + 2 < 65536) :
+    clientExtCase c st c.extALPN (be16 (concatMap alpnEnc l).length ++ concatMap alpnEnc l) =
+      some ({ st with alpn := st.alpn ++ l }, [], false) := by
+  have hne1 : c.extALPN ≠ c.extServerName := by rw [hc.alpn, hc.sni]; decide
+  have hne2 : c.extALPN ≠ c.extTrustedCAKeys := by rw [hc.alpn, hc.tca]; decide
+  have hne3 : c.extALPN ≠ c.extStatusRequest := by rw [hc.alpn, hc.status]; decide
+  have hne4 : c.extALPN ≠ c.extSupportedCurves := by rw [hc.alpn, hc.curves]; decide
+  have hne5 : c.extALPN ≠ c.extSignatureAlgorithms := by rw [hc.alpn, hc.sigs]; decide
+  have hge := concatMap_length_ge alpnEnc (fun _ => True) (fun x _ => by simp [alpnEnc]) l (fun _ _ => trivial)
+  have hne : isEmpty (concatMap alpnEnc l) = false := isEmpty_false_of_pos (by omega)
+  have hf := foldMany_concat' alpnStep alpnEnc (fun s p => { s with alpn := s.alpn ++ [p] }) AlpnOk
+    (fun x _ => by simp [alpnEnc]) (fun s x r hx => alpnStep_item s x hx r) l (concatMap alpnEnc l).length st hw hge
+  rw [foldl_alpn] at hf
+  simp only [clientExtCase, hne1, hne2, hne3, hne4, hne5, ↓reduceIte, readVec16_inner hl, hne, Bool.false_eq_true, hf]
+
+theorem case_cid (c : Codes) (hc : HelloCodes c) (st : ClientHello) (id : Bytes) (hl : id.length + 2 < 65536) :
+    clientExtCase c st c.extClientID (be16 id.length ++ id) = some ({ st with clientId := id }, [], false) := by
+  have hne1 : c.extClientID ≠ c.extServerName := by rw [hc.cid, hc.sni]; decide
+  have hne2 : c.extClientID ≠ c.extTrustedCAKeys := by rw [hc.cid, hc.tca]; decide
+  have hne3 : c.extClientID ≠ c.extStatusRequest := by rw [hc.cid, hc.status]; decide
+  have hne4 : c.extClientID ≠ c.extSupportedCurves := by rw [hc.cid, hc.curves]; decide
+  have hne5 : c.extClientID ≠ c.extSignatureAlgorithms := by rw [hc.cid, hc.sigs]; decide
+  have hne6 : c.extClientID ≠ c.extALPN := by rw [hc.cid, hc.alpn]; decide
+  simp only [clientExtCase, hne1, hne2, hne3, hne4, hne5, hne6, ↓reduceIte, readVec16_inner hl]
+
+/-! #### the seven optional client extensions as a filtered list -/
+
+inductive CExt where
+  | sni | tas | status | curves | sigs | alpn | cid
+
+def cAll : List CExt := [.sni, .tas, .status, .curves, .sigs, .alpn, .cid]
+
+def cEnc (c : Codes) (m : ClientHello) : CExt → Bytes
+  | .sni => wrap2 c.extServerName (sniInner m.serverName)
+  | .tas => wrap2 c.extTrustedCAKeys (concatMap taEnc m.tas)
+  | .status => statusExt c
+  | .curves => wrap2 c.extSupportedCurves (w16s m.curves)
+  | .sigs => wrap2 c.extSignatureAlgorithms (w16s m.sigAlgs)
+  | .alpn => wrap2 c.extALPN (concatMap alpnEnc m.alpn)
+  | .cid => wrap2 c.extClientID m.clientId
+
+def cUpd (c : Codes) (m : ClientHello) (st : ClientHello) : CExt → ClientHello
+  | .sni => sniUpd m.serverName st
+  | .tas => { st with tas := st.tas ++ m.tas }
+  | .status => { st with ocsp := true }
+  | .curves => { st with curves := listMode c.curvesMode st.curves m.curves }
+  | .sigs => { st with sigAlgs := listMode c.sigAlgsMode st.sigAlgs m.sigAlgs }
+  | .alpn => { st with alpn := st.alpn ++ m.alpn }
+  | .cid => { st with clientId := m.clientId }
+
+def cOn (m : ClientHello) : CExt → Bool
+  | .sni => decide (m.serverName.length > 0)
+  | .tas => decide (m.tas.length > 0)
+  | .status => m.ocsp
+  | .curves => decide (m.curves.length > 0)
+  | .sigs => decide (m.sigAlgs.length > 0)
+  | .alpn => decide (m.alpn.length > 0)
+  | .cid => decide (m.clientId.length > 0)
+
+theorem concatMap_filter {α : Type} (f : α → Bytes) (p : α → Bool) (l : List α) :
+    concatMap f (l.filter p) = concatMap (fun x => if p x then f x else []) l := by
+  induction l with
+  | nil => rfl
+  | cons x xs ih =>
+    simp only [List.filter_cons]
+    split <;> simp_all [concatMap]
+
+theorem foldl_filter {α σ : Type} (upd : σ → α → σ) (p : α → Bool) (l : List α) (st : σ) :
+    (l.filter p).foldl upd st = l.foldl (fun s x => if p x then upd s x else s) st := by
+  induction l generalizing st with
+  | nil => rfl
+  | cons x xs ih =>
+    simp only [List.filter_cons, List.foldl_cons]
+    split <;> simp_all
+
+structure CHwf (dtlcp : Bool) (m : ClientHello) : Prop where
+  rnd : m.random.length = 32
+  sid : m.sessionId.length ≤ 32
+  cookie : if dtlcp then m.cookie.length < 256 else m.cookie = []
+  suites : 0 < m.suites.length ∧ m.suites.length < 32768
+  comp : 0 < m.compression.length ∧ m.compression.length < 256
+  dot : Spec.Codec.noTrailingDot m.serverName = true
+  tas : ∀ t ∈ m.tas, Spec.Codec.wfTA t = true
+  alpn : ∀ p ∈ m.alpn, AlpnOk p
+  total : Spec.Codec.clientExtLen m < 65536
+
+theorem chwf_of {st : Stack} {m : ClientHello} (h : Spec.Codec.wfClientHello st m = true) :
+    CHwf (decide (st = .dtlcp)) m := by
+  simp only [Spec.Codec.wfClientHello, Bool.and_eq_true, beq_iff_eq, decide_eq_true_eq, Spec.Codec.allB,
+    List.all_eq_true] at h
+  obtain ⟨⟨⟨⟨⟨⟨⟨⟨h1, h2⟩, h3⟩, h4⟩, h5⟩, h6⟩, h7⟩, h8⟩, h9⟩ := h
+  refine ⟨h1, h2, ?_, h4, h5, h6, h7, fun p hp => h8 p hp, h9⟩
+  cases st
+  · simp only [beq_iff_eq] at h3
+    simp; exact List.eq_nil_of_length_eq_zero h3
+  · simp only [decide_eq_true_eq] at h3
+    simp; exact h3
+
+theorem taEnc_length (t : TA) : (taEnc t).length = Spec.Codec.taLen t := by
+  unfold taEnc Spec.Codec.taLen
+  split <;> simp [be16] <;> omega
+
+theorem tas_length (l : List TA) : (concatMap taEnc l).length = l.foldr (fun t a => Spec.Codec.taLen t + a) 0 := by
+  induction l with
+  | nil => rfl
+  | cons t ts ih => simp only [concatMap, List.length_append, taEnc_length, List.foldr_cons, ih]
+
+theorem alpn_length (l : List Bytes) : (concatMap alpnEnc l).length = Spec.Codec.sumLen l 1 := by
+  induction l with
+  | nil => rfl
+  | cons t ts ih =>
+    simp only [concatMap, List.length_append, alpnEnc, List.length_cons, Spec.Codec.sumLen, List.foldr_cons] at ih ⊢
+    omega
+
+def cLen (m : ClientHello) : CExt → Nat
+  | .sni => if m.serverName.length > 0 then 2 + 2 + 2 + 1 + 2 + m.serverName.length else 0
+  | .tas => if m.tas.length > 0 then 2 + 2 + 2 + (m.tas.foldr (fun t a => Spec.Codec.taLen t + a) 0) else 0
+  | .status => if m.ocsp then 9 else 0
+  | .curves => if m.curves.length > 0 then 6 + 2 * m.curves.length else 0
+  | .sigs => if m.sigAlgs.length > 0 then 6 + 2 * m.sigAlgs.length else 0
+  | .alpn => if m.alpn.length > 0 then 6 + Spec.Codec.sumLen m.alpn 1 else 0
+  | .cid => if m.clientId.length > 0 then 6 + m.clientId.length else 0
+
+theorem cItem_length (c : Codes) (m : ClientHello) (x : CExt) :
+    (if cOn m x = true then cEnc c m x else []).length = cLen m x := by
+  cases x <;> simp only [cOn, cEnc, cLen, decide_eq_true_eq] <;> split <;>
+    simp_all [wrap2_length, sniInner, be16, tas_length, statusExt, w16s_length, alpn_length] <;> try omega
+
+theorem cE_length (c : Codes) (m : ClientHello) :
+    (concatMap (cEnc c m) (cAll.filter (cOn m))).length = Spec.Codec.clientExtLen m := by
+  rw [concatMap_filter]
+  simp only [cAll, concatMap, List.length_append, List.length_nil, Nat.add_zero, cItem_length]
+  simp only [cLen, Spec.Codec.clientExtLen]
+  omega
+
+theorem cItem_le (c : Codes) (m : ClientHello) (x : CExt) (hx : x ∈ cAll) :
+    cLen m x ≤ Spec.Codec.clientExtLen m := by
+  simp only [cAll, List.mem_cons, List.mem_nil_iff, or_false] at hx
+  unfold Spec.Codec.clientExtLen
+  rcases hx with h | h | h | h | h | h | h <;> subst h <;> simp only [cLen] <;> omega
+
+/-- the size bound of each present extension's inner data -/
+theorem inner_bound (c : Codes) (m : ClientHello) (dt : Bool) (hw : CHwf dt m) (x : CExt) (hx : x ∈ cAll) (hon : cOn m x = true)
+    {inner : Bytes} {code : Nat} (he : cEnc c m x = wrap2 code inner) : inner.length + 2 < 65536 := by
+  have h1 := cItem_length c m x
+  rw [hon] at h1
+  simp only [↓reduceIte, he, wrap2_length] at h1
+  have h2 := cItem_le c m x hx
+  have h3 := hw.total
+  omega
+
+theorem optBytes_eq {b : Bool} {x : Option Bytes} {y : Bytes} (h : b = true → x = some y) :
+    optBytes b x = some (if b = true then y else []) := by
+  cases b
+  · simp [optBytes]
+  · simp [optBytes, h rfl]
+
+theorem encClientExtensions_eq (c : Codes) (hc : HelloCodes c) (m : ClientHello) (dt : Bool) (hw : CHwf dt m) :
+    encClientExtensions c m = some (concatMap (cEnc c m) (cAll.filter (cOn m))) := by
+  rw [concatMap_filter]
+  have b (x : CExt) (hx : x ∈ cAll) (hon : cOn m x = true) {inner : Bytes} {code : Nat}
+      (he : cEnc c m x = wrap2 code inner) := inner_bound c m dt hw x hx hon he
+  have h1 : optBytes (decide (m.serverName.length > 0)) (encSNI c m.serverName) =
+      some (if cOn m .sni = true then cEnc c m .sni else []) :=
+    optBytes_eq (fun hon => by
+      have hb := b .sni (by simp [cAll]) hon rfl
+      have hl : m.serverName.length < 65536 := by simp [sniInner, be16] at hb; omega
+      simp only [encSNI, vec16_of_lt hl, prefixed]
+      exact ext_wrap2 _ hb)
+  have h2 : optBytes (decide (m.tas.length > 0)) (ext c.extTrustedCAKeys (vec16x2 (concatMapM (encTA c) m.tas))) =
+      some (if cOn m .tas = true then cEnc c m .tas else []) :=
+    optBytes_eq (fun hon => by
+      rw [concatMapM_encTA c hc m.tas hw.tas]
+      exact ext_wrap2 _ (b .tas (by simp [cAll]) hon rfl))
+  have h3 : optBytes m.ocsp (ext c.extStatusRequest (some [1, 0, 0, 0, 0])) =
+      some (if cOn m .status = true then cEnc c m .status else []) :=
+    optBytes_eq (fun hon => by
+      simp only [ext, cEnc, statusExt]
+      have : vec16 ([1, 0, 0, 0, 0] : Bytes) = some (be16 5 ++ [1, 0, 0, 0, 0]) := by decide
+      rw [this])
+  have h4 : optBytes (decide (m.curves.length > 0)) (ext c.extSupportedCurves (vec16x2 (some (w16s m.curves)))) =
+      some (if cOn m .curves = true then cEnc c m .curves else []) :=
+    optBytes_eq (fun hon => ext_wrap2 _ (b .curves (by simp [cAll]) hon rfl))
+  have h5 : optBytes (decide (m.sigAlgs.length > 0)) (ext c.extSignatureAlgorithms (vec16x2 (some (w16s m.sigAlgs)))) =
+      some (if cOn m .sigs = true then cEnc c m .sigs else []) :=
+    optBytes_eq (fun hon => ext_wrap2 _ (b .sigs (by simp [cAll]) hon rfl))
+  have h6 : optBytes (decide (m.alpn.length > 0)) (ext c.extALPN (vec16x2 (concatMapM alpnItem m.alpn))) =
+      some (if cOn m .alpn = true then cEnc c m .alpn else []) :=
+    optBytes_eq (fun hon => by
+      rw [concatMapM_alpn m.alpn hw.alpn]
+      exact ext_wrap2 _ (b .alpn (by simp [cAll]) hon rfl))
+  have h7 : optBytes (decide (m.clientId.length > 0)) (ext c.extClientID (vec16x2 (some m.clientId))) =
+      some (if cOn m .cid = true then cEnc c m .cid else []) :=
+    optBytes_eq (fun hon => ext_wrap2 _ (b .cid (by simp [cAll]) hon rfl))
+  unfold encClientExtensions
+  rw [h1, h2, h3, h4, h5, h6, h7]
+  simp [cAll, concatMap]
+
+theorem cEnc_ne (c : Codes) (m : ClientHello) (x : CExt) : cEnc c m x ≠ [] := by
+  cases x <;> simp [cEnc, wrap2_ne, statusExt, be16]
+
+theorem code_lt (c : Codes) (hc : HelloCodes c) :
+    c.extServerName < 65536 ∧ c.extTrustedCAKeys < 65536 ∧ c.extSupportedCurves < 65536 ∧
+    c.extSignatureAlgorithms < 65536 ∧ c.extALPN < 65536 ∧ c.extClientID < 65536 := by
+  rw [hc.sni, hc.tca, hc.curves, hc.sigs, hc.alpn, hc.cid]; decide
+
+theorem client_step (c : Codes) (hc : HelloCodes c) (m : ClientHello) (dt : Bool) (hw : CHwf dt m)
+    (st : ClientHello) (x : CExt) (r : Bytes) (hx : x ∈ cAll ∧ cOn m x = true) :
+    clientExtStep c st (cEnc c m x ++ r) = some (cUpd c m st x, r) := by
+  obtain ⟨hx, hon⟩ := hx
+  obtain ⟨l1, l2, l3, l4, l5, l6⟩ := code_lt c hc
+  cases x with
+  | sni =>
+    have hb := inner_bound c m dt hw .sni hx hon rfl
+    have h0 : m.serverName.length > 0 := by simpa [cOn] using hon
+    exact clientExtStep_wrap2 c st l1 hb r
+      (case_sni c hc st m.serverName h0 (by simp [sniInner, be16] at hb; omega) hw.dot)
+  | tas =>
+    have hb := inner_bound c m dt hw .tas hx hon rfl
+    have h0 : m.tas.length > 0 := by simpa [cOn] using hon
+    exact clientExtStep_wrap2 c st l2 hb r (case_tas c hc st m.tas h0 hw.tas hb)
+  | status => exact step_status c hc st r
+  | curves =>
+    have hb := inner_bound c m dt hw .curves hx hon rfl
+    have h0 : m.curves.length > 0 := by simpa [cOn] using hon
+    exact clientExtStep_wrap2 c st l3 hb r (case_curves c hc st m.curves h0 hb)
+  | sigs =>
+    have hb := inner_bound c m dt hw .sigs hx hon rfl
+    have h0 : m.sigAlgs.length > 0 := by simpa [cOn] using hon
+    exact clientExtStep_wrap2 c st l4 hb r (case_sigs c hc st m.sigAlgs h0 hb)
+  | alpn =>
+    have hb := inner_bound c m dt hw .alpn hx hon rfl
+    have h0 : m.alpn.length > 0 := by simpa [cOn] using hon
+    exact clientExtStep_wrap2 c st l5 hb r (case_alpn c hc st m.alpn h0 hw.alpn hb)
+  | cid =>
+    have hb := inner_bound c m dt hw .cid hx hon rfl
+    exact clientExtStep_wrap2 c st l6 hb r (case_cid c hc st m.clientId hb)
+
+theorem len0 {α : Type} {l : List α} (h : ¬ l.length > 0) : l = [] := List.eq_nil_of_length_eq_zero (by omega)
+
+theorem stp_sni (c : Codes) (m st : ClientHello) (h : st.serverName = []) :
+    (if cOn m .sni = true then cUpd c m st .sni else st) = { st with serverName := m.serverName } := by
+  by_cases hon : cOn m .sni = true
+  · simp only [hon, ↓reduceIte, cUpd, sniUpd, h, List.length_nil, ne_eq, not_true_eq_false]
+  · simp only [hon, Bool.false_eq_true, ↓reduceIte]
+    have : m.serverName = [] := len0 (by simpa [cOn] using hon)
+    rw [this, ← h]
+
+theorem stp_tas (c : Codes) (m st : ClientHello) (h : st.tas = []) :
+    (if cOn m .tas = true then cUpd c m st .tas else st) = { st with tas := m.tas } := by
+  by_cases hon : cOn m .tas = true
+  · simp only [hon, ↓reduceIte, cUpd, h, List.nil_append]
+  · simp only [hon, Bool.false_eq_true, ↓reduceIte]
+    have : m.tas = [] := len0 (by simpa [cOn] using hon)
+    rw [this, ← h]
+
+theorem stp_status (c : Codes) (m st : ClientHello) (h : st.ocsp = false) :
+    (if cOn m .status = true then cUpd c m st .status else st) = { st with ocsp := m.ocsp } := by
+  by_cases hon : cOn m .status = true
+  · have : m.ocsp = true := by simpa [cOn] using hon
+    simp only [hon, ↓reduceIte, cUpd, this]
+  · have : m.ocsp = false := by simpa [cOn] using hon
+    simp only [hon, Bool.false_eq_true, ↓reduceIte, this]
+    rw [← h]
+
+theorem stp_curves (c : Codes) (hm : c.curvesMode ≤ 1) (m st : ClientHello) (h : st.curves = []) :
+    (if cOn m .curves = true then cUpd c m st .curves else st) = { st with curves := m.curves } := by
+  by_cases hon : cOn m .curves = true
+  · simp only [hon, ↓reduceIte, cUpd, h, listMode_default hm]
+  · simp only [hon, Bool.false_eq_true, ↓reduceIte]
+    have : m.curves = [] := len0 (by simpa [cOn] using hon)
+    rw [this, ← h]
+
+theorem stp_sigs (c : Codes) (hm : c.sigAlgsMode ≤ 1) (m st : ClientHello) (h : st.sigAlgs = []) :
+    (if cOn m .sigs = true then cUpd c m st .sigs else st) = { st with sigAlgs := m.sigAlgs } := by
+  by_cases hon : cOn m .sigs = true
+  · simp only [hon, ↓reduceIte, cUpd, h, listMode_default hm]
+  · simp only [hon, Bool.false_eq_true, ↓reduceIte]
+    have : m.sigAlgs = [] := len0 (by simpa [cOn] using hon)
+    rw [this, ← h]
+
+theorem stp_alpn (c : Codes) (m st : ClientHello) (h : st.alpn = []) :
+    (if cOn m .alpn = true then cUpd c m st .alpn else st) = { st with alpn := m.alpn } := by
+  by_cases hon : cOn m .alpn = true
+  · simp only [hon, ↓reduceIte, cUpd, h, List.nil_append]
+  · simp only [hon, Bool.false_eq_true, ↓reduceIte]
+    have : m.alpn = [] := len0 (by simpa [cOn] using hon)
+    rw [this, ← h]
+
+theorem stp_cid (c : Codes) (m st : ClientHello) (h : st.clientId = []) :
+    (if cOn m .cid = true then cUpd c m st .cid else st) = { st with clientId := m.clientId } := by
+  by_cases hon : cOn m .cid = true
+  · simp only [hon, ↓reduceIte, cUpd]
+  · simp only [hon, Bool.false_eq_true, ↓reduceIte]
+    have : m.clientId = [] := len0 (by simpa [cOn] using hon)
+    rw [this, ← h]
+
+theorem client_fold (c : Codes) (hm1 : c.curvesMode ≤ 1) (hm2 : c.sigAlgsMode ≤ 1) (m : ClientHello) :
+    (cAll.filter (cOn m)).foldl (cUpd c m)
+      ⟨m.vers, m.random, m.sessionId, m.cookie, m.suites, m.compression, [], [], false, [], [], [], []⟩ = m := by
+  rw [foldl_filter]
+  simp only [cAll, List.foldl_cons, List.foldl_nil]
+  rw [stp_sni c m _ rfl, stp_tas c m _ rfl, stp_status c m _ rfl, stp_curves c hm1 m _ rfl, stp_sigs c hm2 m _ rfl,
+    stp_alpn c m _ rfl, stp_cid c m _ rfl]
+
+theorem cItems_all (m : ClientHello) : ∀ x ∈ cAll.filter (cOn m), x ∈ cAll ∧ cOn m x = true := by
+  intro x hx
+  exact List.mem_filter.mp hx
+
+/-- body-level round trip of ClientHello (shared by both stacks; `dt` = with the cookie vector) -/
+theorem rt_clientHelloBody (c : Codes) (hc : HelloCodes c) (hm1 : c.curvesMode ≤ 1) (hm2 : c.sigAlgsMode ≤ 1)
+    (dt : Bool) (m : ClientHello) (hw : CHwf dt m) :
+    ∃ body, encClientHelloBody c dt m = some body ∧ decClientHelloBody c dt body = some m ∧ body.length < 16777216 := by
+  have hsid : m.sessionId.length < 256 := by have := hw.sid; omega
+  have hcs : (w16s m.suites).length < 65536 := by rw [w16s_length]; have := hw.suites; omega
+  have hcm := hw.comp.2
+  have hrl : m.random.length = c.randomLen := by rw [hc.rnd]; exact hw.rnd
+  obtain ⟨E, hE⟩ : ∃ E, E = concatMap (cEnc c m) (cAll.filter (cOn m)) := ⟨_, rfl⟩
+  have hel : E.length = Spec.Codec.clientExtLen m := by rw [hE]; exact cE_length c m
+  have htot := hw.total
+  let m0 : ClientHello := ⟨m.vers, m.random, m.sessionId, m.cookie, m.suites, m.compression, [], [], false, [], [], [], []⟩
+  have hloop : ∀ f, E.length ≤ f → foldMany (clientExtStep c) f m0 E = some m := by
+    intro f hf
+    have hge := concatMap_length_ge (cEnc c m) (fun _ => True) (fun x _ => cEnc_ne c m x) (cAll.filter (cOn m))
+      (fun _ _ => trivial)
+    have := foldMany_concat' (clientExtStep c) (cEnc c m) (cUpd c m) (fun x => x ∈ cAll ∧ cOn m x = true)
+      (fun x _ => cEnc_ne c m x) (fun st x r hx => client_step c hc m dt hw st x r hx)
+      (cAll.filter (cOn m)) f m0 (cItems_all m) (by rw [hE] at hf; omega)
+    rw [hE, this, client_fold c hm1 hm2 m]
+  have hex : ∃ ex, extBlock E = some ex ∧ ex.length < 65540 ∧
+      (if isEmpty ex then some m0 else
+        match readVec16 ex with
+        | none => none
+        | some (exts, s7) => if !isEmpty s7 then none else foldMany (clientExtStep c) exts.length m0 exts) = some m := by
+    by_cases he : E.length > 0
+    · have hlt : E.length < 65536 := by omega
+      refine ⟨be16 E.length ++ E, by simp only [extBlock, he, ↓reduceIte, vec16_of_lt hlt],
+        by rw [List.length_append, be16_length]; omega, ?_⟩
+      have hne : isEmpty (be16 E.length ++ E) = false := by simp [be16, isEmpty]
+      have hv := readVec16_append hlt ([] : Bytes)
+      simp only [List.append_nil] at hv
+      rw [hne, hv]
+      simp only [Bool.false_eq_true, ↓reduceIte, isEmpty_nil, Bool.not_true]
+      exact hloop _ (Nat.le_refl _)
+    · have hnil : E = [] := List.eq_nil_of_length_eq_zero (by omega)
+      refine ⟨[], by simp [extBlock, hnil], by simp, ?_⟩
+      have := hloop 0 (by omega)
+      rw [hnil, foldMany_nil] at this
+      simp only [isEmpty_nil, ↓reduceIte]
+      exact this
+  obtain ⟨ex, hex1, hex2, hex3⟩ := hex
+  have hck : ∃ ck, optBytes dt (vec8 m.cookie) = some ck ∧ ck.length ≤ 256 ∧
+      (∀ rest, (if dt then readVec8 (ck ++ rest) else some ([], ck ++ rest)) = some (m.cookie, rest)) := by
+    have hc' := hw.cookie
+    cases dt with
+    | true =>
+      simp only [↓reduceIte] at hc'
+      refine ⟨u8 m.cookie.length :: m.cookie, by simp [optBytes, vec8_of_lt hc'], by simp; omega, ?_⟩
+      intro rest
+      have := readVec8_append hc' rest
+      simpa using this
+    | false =>
+      simp only [Bool.false_eq_true, ↓reduceIte] at hc'
+      exact ⟨[], by simp [optBytes], by simp, by intro rest; simp [hc']⟩
+  obtain ⟨ck, hck1, hck2, hck3⟩ := hck
+  refine ⟨m.vers.bytes ++ m.random ++ (u8 m.sessionId.length :: m.sessionId) ++ ck ++
+    (be16 (w16s m.suites).length ++ w16s m.suites) ++ (u8 m.compression.length :: m.compression) ++ ex, ?_, ?_, ?_⟩
+  · have := encClientExtensions_eq c hc m dt hw
+    simp only [encClientHelloBody, this, exactly, hrl, ↓reduceIte, vec8_of_lt hsid, hck1, vec16_of_lt hcs,
+      vec8_of_lt hcm, ← hE, hex1]
+  · have h1 := readBytes_append m.random ((u8 m.sessionId.length :: m.sessionId) ++ ck ++
+      (be16 (w16s m.suites).length ++ w16s m.suites) ++ (u8 m.compression.length :: m.compression) ++ ex)
+    rw [hrl] at h1
+    have h2 := readVec8_append hsid (ck ++ (be16 (w16s m.suites).length ++ w16s m.suites) ++
+      (u8 m.compression.length :: m.compression) ++ ex)
+    have h3 := hck3 ((be16 (w16s m.suites).length ++ w16s m.suites) ++ (u8 m.compression.length :: m.compression) ++ ex)
+    have h4 := readVec16_append hcs ((u8 m.compression.length :: m.compression) ++ ex)
+    have h5 := many_w16s m.suites (w16s m.suites).length (by rw [w16s_length]; omega)
+    have h6 := readVec8_append hcm ex
+    simp only [List.append_assoc, List.cons_append, W16.bytes, List.nil_append] at h1 h2 h3 h4 h6
+    simp only [decClientHelloBody, W16.bytes, List.append_assoc, List.cons_append, List.nil_append, readW16, h1, h2, h3,
+      h4, h5, h6]
+    exact hex3
+  · simp only [List.length_append, W16.bytes, List.length_cons, List.length_nil, be16_length]
+    have := hw.rnd
+    omega
+
+theorem rt_clientHello_tlcp (c : Codes) (hc : HelloCodes c) (hm1 : c.curvesMode ≤ 1) (hm2 : c.sigAlgsMode ≤ 1)
+    (m : ClientHello) (hw : Spec.Codec.wfClientHello .tlcp m = true) :
+    ∃ b, encClientHello c m = some b ∧ unmarshalClientHello c b = .ok m := by
+  obtain ⟨body, h1, h2, h3⟩ := rt_clientHelloBody c hc hm1 hm2 false m (chwf_of hw)
+  refine ⟨u8 c.tClientHello :: (be24 body.length ++ body), by simp only [encClientHello, h1, vec24_of_lt h3], ?_⟩
+  rw [unmarshalClientHello, guardT_pass _ _ h3, decClientHello, skip4]
+  simp only [h2]; rfl
+
+theorem total_clientHello_tlcp (c : Codes) (b : Bytes) : unmarshalClientHello c b ≠ .panic := by
+  apply guardT_ne_panic
+  unfold decClientHello
+  split
+  · simp
+  · exact ofOption_ne_panic _
+
+theorem rt_clientHello_dtlcp (c : Codes) (hc : HelloCodes c) (hm1 : c.curvesMode ≤ 1) (hm2 : c.sigAlgsMode ≤ 1)
+    (r : Lemmas.CodecDtlcp.Ready c c.tClientHello) (h : DHdr) (m : ClientHello)
+    (hw : Spec.Codec.wfClientHello .dtlcp m = true)
+    (hh : ∀ body, encClientHelloBody c true m = some body → Spec.Codec.wfDHdr h body.length = true) :
+    ∃ b body, encClientHelloBody c true m = some body ∧ Model.CodecDtlcp.encClientHello c h m = some b ∧
+      Model.CodecDtlcp.decClientHello c b = .ok (⟨h.seq, 0, body.length⟩, m) := by
+  obtain ⟨body, h1, h2, h3⟩ := rt_clientHelloBody c hc hm1 hm2 true m (chwf_of hw)
+  refine ⟨Lemmas.CodecDtlcp.chdr (u8 c.tClientHello) body.length h.seq ++ body, body, h1, ?_, ?_⟩
+  · simp only [Model.CodecDtlcp.encClientHello, h1, Lemmas.CodecDtlcp.header_complete _ _ _ (hh body h1)]
+  · unfold Model.CodecDtlcp.decClientHello
+    rw [Lemmas.CodecDtlcp.guard_pass c r.hl _ _ h3, Lemmas.CodecDtlcp.unmarshalHeader_complete _ _ h3]
+    simp [h2]
+
+theorem total_clientHello_dtlcp (c : Codes) (r : Lemmas.CodecDtlcp.Ready c c.tClientHello) (b : Bytes) :
+    Model.CodecDtlcp.decClientHello c b ≠ .panic := by
+  unfold Model.CodecDtlcp.decClientHello
   apply Lemmas.CodecDtlcp.guard_ne_panic c r.hl
   split
   · simp
